@@ -308,6 +308,10 @@ func (in *Interp) mergeVal(c *Term, a, b Value) (Value, bool) {
 		if !ok || x.sort != y.sort || x.w != y.w {
 			return nil, false
 		}
+		if x != y && x.sort == SReal && ((x.IsConst() && x.r == nil && !isFin(x.f)) || (y.IsConst() && y.r == nil && !isFin(y.f))) {
+			// NaN/Inf exist only as constants in the rational domain: no ite over them
+			return nil, false
+		}
 		return in.tt.Ite(c, x, y), true
 	case *Agg:
 		y, ok := b.(*Agg)
